@@ -511,40 +511,118 @@ func TestC08API(t *testing.T) {
 		}
 
 		// ---- the generated operations affect exactly the listed rows ----
+		// The expected effect is computed by the reference interpreter on one operation per
+		// listed row (where _uuid == row): that is the set of rows the statement promises.
 		action := rapid.SampledFrom([]string{"Delete", "Update", "Mutate"}).Draw(t, "action")
 		kase.Action = action
 		var ops []ovsdb.Operation
-		want := rows.Clone()
+		listedUUIDs := make([]string, 0, len(gotSet))
+		for u := range gotSet {
+			listedUUIDs = append(listedUUIDs, u)
+		}
+		sort.Strings(listedUUIDs)
+		var refOps []kit.Op
+		byUUID := func(u string) []kit.Cond {
+			return []kit.Cond{{Col: "_uuid", Fn: "==", Val: kit.Scalar(kit.UUID(u))}}
+		}
 		switch action {
 		case "Delete":
 			ops, err = capi.Delete()
-			for u := range gotSet {
-				delete(want, u)
+			for _, u := range listedUUIDs {
+				refOps = append(refOps, kit.Op{Op: "delete", Table: tb.Name, Where: byUUID(u)})
 			}
 		case "Update":
-			// set the string-string map column (not part of any schema index)
+			// 1-2 drawn columns get drawn values through the model
 			m := reflect.New(typ).Interface()
-			nv := kit.MapOf(kit.Str("updated"), kit.Str("yes"))
-			mi := 0
-			for i, c := range tb.Cols {
+			row := kit.Row{}
+			var fields []interface{}
+			var names []string
+			for _, ci := range rapid.Permutation([]int{1, 2, 3, 4, 5, 6}).Draw(t, "updcols")[:rapid.IntRange(1, 2).Draw(t, "nupd")] {
+				c := tb.Cols[ci]
+				var v kit.Val
 				if c.Name == "m" {
-					mi = i
+					v = genIndexRow(t, tb)["m"]
+				} else {
+					v = kit.GenVal(t, c, nil)
 				}
+				if hasZero(v) {
+					v = kit.Scalar(kit.UUID(kit.MkUUID(970)))
+				}
+				row[c.Name] = v
+				reflect.ValueOf(m).Elem().FieldByName(kit.FieldName(ci)).Set(reflect.ValueOf(kit.ToNative(c, v)))
+				fields = append(fields, fieldPtrByColumn(w, tb.Name, m, c.Name))
+				names = append(names, c.Name+"="+v.Key())
 			}
-			reflect.ValueOf(m).Elem().FieldByName(kit.FieldName(mi)).Set(reflect.ValueOf(kit.ToNative(tb.Cols[mi], nv)))
-			ops, err = capi.Update(m, fieldPtrByColumn(w, tb.Name, m, "m"))
-			for u := range gotSet {
-				r := want[u].Clone()
-				r["m"] = nv
-				want[u] = r
+			kase.Action = "Update(" + strings.Join(names, ", ") + ")"
+			ops, err = capi.Update(m, fields...)
+			for _, u := range listedUUIDs {
+				refOps = append(refOps, kit.Op{Op: "update", Table: tb.Name, Where: byUUID(u), Row: row})
 			}
 		default:
+			// a mutation of the set, the map or a numeric scalar column through the model
 			m := reflect.New(typ).Interface()
-			ops, err = capi.Mutate(m, model.Mutation{Field: fieldPtrByColumn(w, tb.Name, m, "m"), Mutator: ovsdb.MutateOperationInsert, Value: map[string]string{"mutated": "yes"}})
-			for u := range gotSet {
-				r := want[u].Clone()
-				r["m"] = r["m"].WithPair(kit.Str("mutated"), kit.Str("yes"))
-				want[u] = r
+			var cands []kit.Col
+			for _, c := range tb.Cols {
+				numeric := c.Shape() == kit.ShScalar && len(c.Key.Enum) == 0 && (c.Key.T == kit.TInt || c.Key.T == kit.TReal)
+				if c.Name == "set" || c.Name == "m" || (numeric && !inAnyIndex(cfg, c.Name)) {
+					cands = append(cands, c)
+				}
+			}
+			c := cands[rapid.IntRange(0, len(cands)-1).Draw(t, "mutcol")]
+			var cur *kit.Val
+			if len(listedUUIDs) > 0 {
+				v := rows[listedUUIDs[0]][c.Name]
+				cur = &v
+			}
+			var mut kit.Mut
+			for tries := 0; ; tries++ {
+				mut = g.GenMutation(t, c, cur, pool)
+				mut.Bare = false
+				if errk, may := refdb.CheckMutation(c, mut); errk == "" && may == "" && !hasZero(mut.Val) {
+					break
+				}
+				if tries > 20 {
+					t.Skip("no valid mutation drawn")
+				}
+			}
+			var value interface{}
+			switch {
+			case c.Shape() == kit.ShMap && !mut.Val.M:
+				// delete by keys: a slice of the key type
+				keys := reflect.MakeSlice(reflect.SliceOf(c.GoType().Key()), 0, len(mut.Val.K))
+				for _, k := range mut.Val.K {
+					keys = reflect.Append(keys, reflect.ValueOf(kit.ToNative(kit.Col{Name: "k", Key: c.Key, Min: 1, Max: 1}, kit.Scalar(k))))
+				}
+				value = keys.Interface()
+			case c.Shape() == kit.ShScalar:
+				value = kit.ToNative(c, mut.Val)
+			default:
+				value = kit.ToNative(c, mut.Val)
+			}
+			kase.Action = fmt.Sprintf("Mutate(%s %s %s)", c.Name, mut.Mutator, mut.Val.Key())
+			ops, err = capi.Mutate(m, model.Mutation{Field: fieldPtrByColumn(w, tb.Name, m, c.Name), Mutator: ovsdb.Mutator(mut.Mutator), Value: value})
+			for _, u := range listedUUIDs {
+				refOps = append(refOps, kit.Op{Op: "mutate", Table: tb.Name, Where: byUUID(u), Mutations: []kit.Mut{mut}})
+			}
+		}
+		want := rows
+		expectReject := ""
+		if len(refOps) > 0 {
+			ref := refdb.Exec(s, kit.State{tb.Name: rows}, refOps, nil)
+			switch {
+			case ref.FailedAt >= 0:
+				expectReject = fmt.Sprintf("operation %d: %s %s", ref.FailedAt, ref.Results[ref.FailedAt].Err, ref.Results[ref.FailedAt].Detail)
+			case ref.CommitErr != "":
+				expectReject = "commit: " + ref.CommitErr + " " + ref.Detail
+			case ref.NegativeZero:
+				t.Skip("negative zero")
+			default:
+				want = ref.Post[tb.Name]
+			}
+			for _, r := range ref.Results {
+				if r.MayReject != "" {
+					t.Skip("may-reject form")
+				}
 			}
 		}
 		if err != nil {
@@ -563,23 +641,36 @@ func TestC08API(t *testing.T) {
 		}
 		res, err := a.c.Transact(a.ctx, ops...)
 		if err != nil {
-			fail("api.ops-error", "%s: transact of the %s operations failed: %v (%s)", kase.Conditional, action, err, kit.MustJSON(ops))
+			if expectReject != "" {
+				// refused on the client side already
+				kit.Record("C08", "api|"+kind+"|"+action+"|refused", false, func() interface{} { return kase }, "api:"+kind, "api:"+action, "api:rejected-as-expected")
+				return
+			}
+			fail("api.ops-error", "%s: transact of the %s operations failed: %v (%s)", kase.Conditional, kase.Action, err, kit.MustJSON(ops))
 		}
 		count := 0
+		rejected := ""
 		for i, r := range res {
 			if r.Error != "" {
-				fail("api.ops-error", "%s: %s operation %d failed: %s %s (%s)", kase.Conditional, action, i, r.Error, r.Details, kit.MustJSON(ops))
+				rejected = fmt.Sprintf("operation %d: %s %s", i, r.Error, r.Details)
+				break
 			}
 			count += r.Count
+		}
+		if rejected != "" && expectReject == "" {
+			fail("api.ops-error", "%s: %s failed: %s (%s)", kase.Conditional, kase.Action, rejected, kit.MustJSON(ops))
+		}
+		if rejected == "" && expectReject != "" {
+			fail("api.ops-missing-error", "%s: %s on rows %s must be rejected (%s) but was executed (%s)", kase.Conditional, kase.Action, setKey(gotSet), expectReject, kit.MustJSON(ops))
 		}
 		post, err := a.srv.Snapshot()
 		if err != nil {
 			t.Fatalf("harness: snapshot: %v", err)
 		}
 		if d := kit.DiffStates(kit.State{tb.Name: want}, post); len(d) > 0 {
-			fail("api.ops-affect-other-rows", "%s: List reports %s, but executing %s() (%s) leaves the database different from applying it to exactly those rows:\n%s", kase.Conditional, setKey(gotSet), action, kit.MustJSON(ops), strings.Join(d, "\n"))
+			fail("api.ops-affect-other-rows", "%s: List reports %s, but executing %s (%s) leaves the database different from applying it to exactly those rows:\n%s", kase.Conditional, setKey(gotSet), kase.Action, kit.MustJSON(ops), strings.Join(d, "\n"))
 		}
-		if count != len(gotSet) {
+		if rejected == "" && count != len(gotSet) {
 			fail("api.ops-count", "%s: List reports %d rows, the %s operations report %d affected rows (%s)", kase.Conditional, len(gotSet), action, count, kit.MustJSON(ops))
 		}
 		// the cache followed
@@ -591,8 +682,23 @@ func TestC08API(t *testing.T) {
 			fail("api.cache-differs", "after %s the cache differs from the database:\n%s", action, strings.Join(d, "\n"))
 		}
 		nontrivial := len(gotSet) > 0 && len(gotSet) < len(rows)
-		kit.Record("C08", fmt.Sprintf("api|%s|%s|%s|%d", kind, action, cfg.name, len(gotSet)), nontrivial, func() interface{} { return kase }, "api:"+kind, "api:"+action)
+		outcome := "api:executed"
+		if rejected != "" {
+			outcome = "api:rejected-as-expected"
+		}
+		kit.Record("C08", fmt.Sprintf("api|%s|%s|%s|%d", kind, kase.Action, cfg.name, len(gotSet)), nontrivial, func() interface{} { return kase }, "api:"+kind, "api:"+action, outcome)
 	})
+}
+
+func inAnyIndex(cfg c08Config, col string) bool {
+	for _, idx := range cfg.schema {
+		for _, c := range idx {
+			if c == col {
+				return true
+			}
+		}
+	}
+	return false
 }
 
 // enumCondOK: explicit conditions on enum columns are generated (mapper.NewCondition used
